@@ -35,7 +35,7 @@ from vlib import common
 import c19_model as M
 from c19_model import LEGAL, ILLEGAL, UNJUDGED
 
-PKG = os.environ.get('VERIF_C19_PKG', '/repo/src/exp2python/python')
+PKG = os.environ.get('VERIF_C19_PKG', common.REPO + '/src/exp2python/python')
 sys.path.insert(0, PKG)
 from stepcode import SimpleDataTypes as SDT
 from stepcode import ConstructedDataTypes as CDT
